@@ -285,7 +285,7 @@ def soft_keywords_in(text):
         for tok in tokenize.generate_tokens(io.StringIO(text).readline):
             if tok.type == tokenize.NAME and tok.string in soft:
                 found.add(tok.string)
-    except (tokenize.TokenError, SyntaxError, IndentationError):
+    except Exception:
         import re
 
         for w in re.findall(r"[A-Za-z_]\w*", text):
